@@ -14,10 +14,10 @@ EXTENDS Mockery
 CfgOf(T) == [n \in {t[1] : t \in T} |->
                [p \in {t[2] : t \in {u \in T : u[1] = n}} |-> (CHOOSE t \in T : t[1] = n /\ t[2] = p)[3]]]
 
-BaseLay == [cwd |-> <<"w">>, mode |-> "search_yml", cfgdir |-> <<"w">>, decoy |-> LY!NoDecoy]
+BaseLay == [cwd |-> <<"w">>, mode |-> "search_yml", cfgdir |-> <<"w">>, decoy |-> LY!NoDecoy, dname |-> ".mockery.yml", via |-> "phys"]
 NoFp    == [point |-> "-", key |-> "-"]
 World(tag, shape, argv, lay, T, occ, fp, pf) ==
-  [tag |-> tag, shape |-> shape, argv |-> argv, lay |-> lay, cfg |-> CfgOf(T), occ |-> occ, fp |-> fp, pkgfault |-> pf, tagged |-> FALSE, cfgkind |-> "normal", mout |-> "default"]
+  [tag |-> tag, shape |-> shape, argv |-> argv, lay |-> lay, cfg |-> CfgOf(T), occ |-> occ, fp |-> fp, pkgfault |-> pf, tagged |-> FALSE, cfgkind |-> "normal", mout |-> "default", container |-> FALSE, envspell |-> "lower"]
 Run(tag, shape, T) == World(tag, shape, "run", BaseLay, T, {}, NoFp, "-")
 
 \* marker values: the text names the level that wrote it
@@ -159,7 +159,7 @@ BuildTags(B) ==
 \* COMMANDS that are not the default command, over healthy and broken configurations
 Commands(B) ==
   {World("command", "S1", argv, BaseLay, T, occ, NoFp, "-") :
-     argv \in {"showconfig", "version", "help", "badflag", "badcmd"},
+     argv \in {"showconfig", "version", "help", "badflag", "badcmd", "completion", "helpcmd"},
      T \in {B, B \cup {<<n, "structname", SN(n)>> : n \in Lv4} \cup {<<"root", "log-level", "bogus">>}},
      occ \in {{}, FilesOf(B)}}
   \cup {World("command", "S1", "showconfig", BaseLay, B, {}, NoFp, pf) : pf \in {"unknown-key", "nocfg", "parse-error"}}
@@ -170,21 +170,52 @@ Commands(B) ==
                  [T |-> B \cup {<<"env", "structname", SN("env")>>, <<"env", "log-level", "debug">>, <<"flag", "log-level", "error">>,
                                <<"env", "build-tags", "extra">>}]}}
 
+\* CONTAINER: the directory of package a holds no Go files of its own, only its sub-packages (shape S2: nothing listed in a)
+Container ==
+  {[World("container", "S2", argv, BaseLay, {<<"root", "all", TRUE>>, <<"a", "structname", SN("a")>>} \cup T, {}, NoFp, "-") EXCEPT !.container = TRUE] :
+     argv \in {"run", "showconfig"},
+     T \in {{<<"a", "recursive", TRUE>>}, {}, {<<"root", "recursive", TRUE>>}, {<<"a", "recursive", FALSE>>, <<"root", "recursive", TRUE>>},
+            {<<"a", "recursive", TRUE>>, <<"a", "exclude-subpkg-regex", <<"ab">> >>},
+            {<<"a", "recursive", TRUE>>, <<"a", "exclude-subpkg-regex", <<"ab", "abc">> >>}}}
+
+\* ENVIRONMENT: MOCKERY_<PARAM> for every scalar parameter -- alone (env beats the default) and against the config file
+\* (the file beats env); booleans in every spelling the code recognises, and one it does not
+EnvVals == [p \in {"all"} |-> <<TRUE, FALSE>>] @@ [p \in {"recursive"} |-> <<FALSE, TRUE>>] @@ [p \in {"force-file-write"} |-> <<TRUE, FALSE>>]
+           @@ [p \in {"require-template-schema-exists"} |-> <<FALSE, TRUE>>]
+           @@ [p \in {"dir"} |-> <<"mocks", "up">>] @@ [p \in {"filename"} |-> <<FN("env"), FN("root")>>]
+           @@ [p \in {"structname"} |-> <<SN("env"), SN("root")>>] @@ [p \in {"pkgname"} |-> << <<Lit("envpkg")>>, <<Lit("filepkg")>> >>]
+           @@ [p \in {"template"} |-> <<"matryer", "testify">>] @@ [p \in {"formatter"} |-> <<"gofmt", "noop">>]
+           @@ [p \in {"include-interface-regex"} |-> <<{"A2", "K2"}, {"B1"}>>] @@ [p \in {"exclude-interface-regex"} |-> <<{"A2"}, {"K2"}>>]
+           @@ [p \in {"log-level"} |-> <<"debug", "error">>] @@ [p \in {"build-tags"} |-> <<"extra", "other">>]
+EnvBase(p) == CASE p \in {"all", "recursive"} -> {<<"a", "exclude-subpkg-regex", <<"abc">> >>} \cup E2 \cup (IF p = "all" THEN {<<"a", "recursive", TRUE>>} ELSE {<<"a", "all", TRUE>>})
+                [] p = "require-template-schema-exists" -> Bg3 \cup {<<"k", "template", "noschema">>}
+                [] p \in {"include-interface-regex", "exclude-interface-regex"} -> {<<"a", "recursive", TRUE>>, <<"a", "exclude-subpkg-regex", <<"abc">> >>,
+                                                                                   <<"k", "include-interface-regex", {"K1", "K2"}>>} \cup E2
+                [] p = "build-tags" -> Bg3 \cup {<<"k", "all", TRUE>>}
+                [] OTHER -> Bg3
+EnvParams(Spells) ==
+  UNION {{[World("env", "S1", "run", BaseLay, EnvBase(p) \cup {<<"env", p, EnvVals[p][1]>>} \cup F, IF p = "force-file-write" THEN FilesOf(Bg3) ELSE {}, NoFp, "-")
+            EXCEPT !.tagged = (p = "build-tags"), !.envspell = sp]
+           : F \in {{}, {<<"root", p, EnvVals[p][2]>>}}, sp \in IF p \in BoolParams THEN Spells ELSE {"lower"}} : p \in DOMAIN EnvVals}
+  \cup {Run("env", "S1", Bg4 \cup {<<"env", "exclude-subpkg-regex", <<"abc">> >>} \cup F) : F \in {{}, {<<"root", "exclude-subpkg-regex", <<"ab">> >>}}}
+  \cup {[World("env", "S1", "showconfig", BaseLay, Bg3 \cup {<<"env", "all", TRUE>>, <<"env", "formatter", "gofmt">>}, {}, NoFp, "-") EXCEPT !.envspell = sp] : sp \in Spells}
+
 \* INIT and MIGRATE: the two commands that write a configuration file (target present / absent; --outfile)
 InitMigrate(B) ==
   {World("init", "S1", "init", BaseLay, B, occ, NoFp, pf) : occ \in {{}, FilesOf(B)}, pf \in {"-", "nocfg"}}
   \cup {[World("migrate", "S1", "migrate", BaseLay, B, {}, NoFp, pf) EXCEPT !.mout = mo] : pf \in {"-", "nocfg"}, mo \in {"default", "rel"}}
 
 \* LOCATE: where the config file is and how it is found (Layout.tla), with a decoy that must not be used
-Lays(Modes, Cwds) == {l \in LY!AllLayouts : l.mode \in Modes /\ l.cwd \in Cwds /\ l.cfgdir \in {<< >>, <<"w">>} /\ l.mode # "search_both"
+\* (working directories reached through a symbolic link -- Layout's via -- are C11's; here the physical spelling only)
+Lays(Modes, Cwds) == {l \in LY!AllLayouts : l.via = "phys" /\ l.mode \in Modes /\ l.cwd \in Cwds /\ l.cfgdir \in {<< >>, <<"w">>} /\ l.mode # "search_both"
                                              /\ l.decoy \in {LY!NoDecoy, << >>, <<"w">>, <<"w", "a">>}}
 Locate(B, Modes, Cwds, Argvs) ==
   {World("locate", "S1", argv, l, B \cup {<<"root", "structname", SN("root")>>}, {}, NoFp, "-") : l \in Lays(Modes, Cwds), argv \in Argvs}
 
 AllModes == LY!Modes \ {"search_both"}
-Quick == Levels({{}}) \cup CrossRef({{}, {"a.A1.1"}}) \cup SelectW({"S1", "S2"}, {{}, {"A1", "A2", "B1"}}, {})
+Quick == Levels({{}}) \cup CrossRef({{}, {"a.A1.1"}}) \cup SelectW({"S1"}, {{}, {"A1", "A2", "B1"}}, {}) \cup SelectW({"S2"}, {{}}, {})
          \cup Recur({FALSE}, {}, <<"ab">>) \cup Recur2({}, {"U"}) \cup Schema(BgS) \cup PerFile(BgS) \cup CfgKinds \cup FsWorlds(Bg3, {{}, {OneFile(FilesOf(Bg3))}, FilesOf(Bg3)}) \cup Fault(Bg3) \cup Sources(Bg3) \cup BuildTags(Bg3)
-         \cup Commands(Bg3) \cup InitMigrate(Bg3) \cup Locate(Bg3, AllModes, {<<"w", "a">>}, {"run"})
+         \cup Commands(Bg3) \cup InitMigrate(Bg3) \cup Container \cup EnvParams({"lower", "upper", "one"}) \cup Locate(Bg3, AllModes, {<<"w", "a">>}, {"run"})
          \cup Locate(Bg3, {"search_yml", "flag_rel", "env_abs", "flagenv_abs"}, {<<"w">>}, {"showconfig"})
 MCTiny     == {Run("tiny", "S1", Bg5)}
 MCQuick    == {x \in Quick : WellFormed(x)}
